@@ -70,7 +70,14 @@ def name_hash_iterates_bytes(ctx, mpq, pid):
                 ctx.bad(R, "%s|iterates-chars" % p_.split("::")[-1], "%s:%d" % (f.file, lp["ln"]), "`for .. in %s` walks Unicode scalar values" % it[:60],
                         "a name containing a byte >= 0x80 (UTF-8 or a legacy code page) is hashed from one truncated code point per character instead of from its bytes: slot, verification hashes and file key differ from every other implementation's")
             elif re.search(r"as_bytes\(\)|\.bytes\(\)|chunks|\.iter\(\)", it) or any(nm in it for nm in pnames):
-                ctx.ok(R, {"fn": p_, "iterates": it[:60]})
+                # ... and over *all* of them: nothing in the loop ends it early or skips a byte's contribution (a NUL is a byte like
+                # any other — the reference hash is defined on every string)
+                esc = [x for x in hirq.walk(lp["body"]) if x.get("k") in ("break", "continue", "ret") and not x.get("x")]
+                if esc:
+                    ctx.bad(R, "%s|loop-leaves-early" % p_.split("::")[-1], "%s:%d" % (f.file, esc[0].get("ln") or lp["ln"]), "the byte loop contains `%s`" % hirq.render(esc[0])[:40],
+                            "bytes after (or at) the point where the loop leaves do not contribute to the hash: names that differ only there collide, and the value differs from the reference hash for such strings")
+                else:
+                    ctx.ok(R, {"fn": p_, "iterates": it[:60]})
 
 
 def run(ctx):
@@ -233,6 +240,38 @@ def run(ctx):
                 ctx.ok(R_wrap, {"wrapper": path, "kernel_calls": v[0], "tail_calls": v[1]})
 
     # early-return guards of the wrappers agree for every (length, key) class
+    # the HET name-hash pair: (masked 64-bit hash, its top byte) for every table width — evaluated on the function's own arithmetic
+    R_het = ctx.rule("C04.het-hash-pair-is-masked-hash-and-its-top-byte", "jenkins_hashlittle2's post-processing returns (h, top) with h = (raw & (2^bits-1)) | 2^(bits-1) and top = bits (bits-8..bits-1) of h, for bits in {8,16,24,32,40,48,56,63,64} and 6 raw values", floor=1)
+    from .c10 import exec_lets, _NoEval
+    hf = None
+    if hf is None:
+        hf = next((f for f in mpq.fn_list if f.hir and f.kind != "Closure" and norm(f.path).endswith("crypto::jenkins::jenkins_hashlittle2")), None)
+    if hf is None:
+        ctx.bad(R_het, "jenkins_hashlittle2|missing", "-", "function not found", "anchor gone")
+    else:
+        ctx.saw_fn(hf)
+        bad = None
+        n_ev = 0
+        try:
+            for bits in (8, 16, 24, 32, 40, 48, 56, 63, 64):
+                for raw in (0, 0xFFFFFFFFFFFFFFFF, 0x0123456789ABCDEF, 0x5151515151515151, 0x8000000000000001, 0x00FF00FF00FF00FF):
+                    env = {"hash_bits": bits, "full_hash": raw, "__ty__": (lambda t_: mpq.ty(t_))}
+                    r = exec_lets(hf.hir["body"], env, skip=("full_hash",))
+                    n_ev += 1
+                    if not (isinstance(r, tuple) and len(r) == 2):
+                        raise _NoEval("return value is not an evaluable pair")
+                    want_h = ((raw & ((1 << bits) - 1)) | (1 << (bits - 1))) if bits < 64 else raw
+                    want_t = (want_h >> (bits - 8)) & 0xFF
+                    if (r[0] & 0xFFFFFFFFFFFFFFFF, r[1] & 0xFF) != (want_h, want_t) and bad is None:
+                        bad = (bits, raw, r, (want_h, want_t))
+            if bad:
+                ctx.bad(R_het, "jenkins_hashlittle2|pair", hf.where, "for %d hash bits and raw value 0x%016X the function returns (0x%X, 0x%02X), the format gives (0x%X, 0x%02X)" % (bad[0], bad[1], bad[2][0], bad[2][1] & 0xFF, bad[3][0], bad[3][1]),
+                        "the HET slot byte stored / looked up for a name differs from the reference NameHash1: foreign archives with a HET width below 64 bits do not resolve the name (own archives stay self-consistent, which is why no round-trip test sees it)")
+            else:
+                ctx.ok(R_het, {"evaluations": n_ev})
+        except _NoEval as e:
+            ctx.bad(R_het, "jenkins_hashlittle2|not-evaluable", hf.where, "post-processing not evaluable: %s" % e, "shape changed")
+
     R_guard = ctx.rule("C04.wrapper-guards-agree", "the byte wrappers skip the cipher for exactly the same (length, key) classes: lengths 0..5 × key zero/non-zero", floor=2)
     from .c10 import _bval, _NoEval
     gtabs = {}
